@@ -36,6 +36,8 @@ Pool(kind, nv) ==
          <<[m |-> "orderby", terms |-> <<WithAl([k |-> "bin", op |-> "+", l |-> Fld("T1", "b"), r |-> NumV(nv)], "ala")>>, dir |-> "DESC"], 1>>,
          <<[m |-> "groupby", terms |-> <<WithAl([k |-> "bin", op |-> "+", l |-> Fld("T1", "b"), r |-> NumV(nv)], "ala")>>], 1>>,
          <<[m |-> "select", terms |-> <<WithAl(StrV(nv), "aly"), WithAl(NegV(nv + 1), "alx")>>], 2>>,
+         \* a constant exempt from parameterisation (allow_parametrize=False) beside an ordinary one: inline in both forms, in no value list
+         <<[m |-> "select", terms |-> <<WithAl([k |-> "noparam", n |-> "77"], "aln"), NumV(nv), [k |-> "noparam", n |-> "exempt"]>>], 1>>,
          <<[m |-> "select", terms |-> <<[k |-> "call", f |-> "SUM", args |-> <<[k |-> "bin", op |-> "*", l |-> Fld("T1", "b"), r |-> FltV(nv)]>>]>>], 1>>,
          <<[m |-> "groupby", terms |-> <<WithAl([k |-> "bin", op |-> "+", l |-> Fld("T1", "b"), r |-> NumV(nv)], "alg")>>], 1>>,
          <<[m |-> "having", crit |-> Gt([k |-> "call", f |-> "SUM", args |-> <<Fld("T1", "b")>>], NumV(nv))], 1>>,
@@ -64,7 +66,7 @@ Pool(kind, nv) ==
     \cup (IF kind = "upsert" THEN
        { <<[m |-> "do_update", col |-> "b", val |-> StrV(nv)], 1>>, <<[m |-> "where", crit |-> Cmp(Fld("T1", "a"), NumV(nv))], 1>> } ELSE {})
     \cup (IF kind = "update" THEN
-       { <<[m |-> "set", col |-> "b", val |-> StrV(nv)], 1>>, <<[m |-> "set", col |-> "c", val |-> [k |-> "bin", op |-> "+", l |-> Fld("T1", "c"), r |-> NumV(nv)]], 1>>,
+       { <<[m |-> "set", col |-> "b", val |-> StrV(nv)], 1>>, <<[m |-> "set", col |-> "c", val |-> [k |-> "noparam", n |-> "78"]], 0>>, <<[m |-> "set", col |-> "c", val |-> [k |-> "bin", op |-> "+", l |-> Fld("T1", "c"), r |-> NumV(nv)]], 1>>,
          <<[m |-> "orderby", terms |-> <<[k |-> "bin", op |-> "+", l |-> Fld("T1", "b"), r |-> NumV(nv)]>>, dir |-> ""], 1>> } ELSE {})
 
 Prefix(kind) == CASE kind = "select" -> << [m |-> "from_", src |-> "T1"], [m |-> "select", terms |-> <<Fld("T1", "a")>>] >>
